@@ -429,3 +429,11 @@ func Dominates(a, b ssa.Instruction) bool {
 	}
 	return a.Block().Dominates(b.Block())
 }
+
+// CalleeName2 is CalleeName for an arbitrary instruction ("" when it is no call).
+func CalleeName2(in ssa.Instruction) string {
+	if c, ok := in.(ssa.CallInstruction); ok {
+		return CalleeName(c)
+	}
+	return ""
+}
